@@ -1,6 +1,8 @@
 """C07 — region queries, translation and bitmap import agree with the point-set model."""
 from checks import regioncommon as rc
 
+BRIDGE = ["Pixman.Props.RegionBridge." + n for n in ("extentCheck_bridge", "inBox_bridge", "subsumes_bridge", "goodRect_bridge", "badRect_bridge", "limits_bridge")]
+
 REQUIRED = [
     "Pixman.Props.C07.translate_mem",
     "Pixman.Props.C07.translate_canon",
@@ -32,7 +34,7 @@ REQUIRED = [
 
 
 def run(ctx):
-    broken = ctx.lean_obligations("Pixman.Props.C07", REQUIRED)
+    broken = ctx.lean_obligations("Pixman.Props.C07", REQUIRED + BRIDGE, extra_modules=["Pixman.Props.RegionBridge"])
     quick = ctx.tier == "quick"
     findings = rc.run_streams(ctx, "C07", 150000 if quick else 1500000, 4 if quick else 16)
     rc.report(ctx, findings)
